@@ -66,6 +66,11 @@ TECHNIQUE = 'explicit-state BFS over operation histories with a reference model 
 
 ENCS = ['ascii', 'dna', 'acgtn']
 ENC_SRC = {'ascii': 'None', 'dna': 'bnp.DNAEncoding', 'acgtn': 'ACGTnEncoding'}
+_T2U = str.maketrans('T', 'U')
+_ID = str.maketrans('', '')
+OTHER_ALPHABETS = {'dna': [('ACGTnEncoding', _ID), ('bnp.encodings.alphabet_encoding.ACUGEncoding', _T2U)],
+                   'acgtn': [('bnp.DNAEncoding', _ID), ('bnp.encodings.alphabet_encoding.ACUGEncoding', _T2U)]}
+OTHER_LETTERS = {'ACGTnEncoding': 'ACGTN', 'bnp.DNAEncoding': 'ACGT', 'bnp.encodings.alphabet_encoding.ACUGEncoding': 'ACUG'}
 N_SHARDS_PER_ENC = 16
 
 
@@ -279,6 +284,18 @@ def battery(st, enc):
             add('eq-str', 't == %r' % p, 'B1', [a == b for a, b in zip(s, p)])
             add('ne-str', 't != %r' % p, 'B1', [a != b for a, b in zip(s, p)])
         add('eq-array', 't == bnp.as_encoded_array(%r, ENC)' % p, 'B1', [a == b for a, b in zip(s, p)])
+        if m and enc in OTHER_ALPHABETS:
+            # operand already encoded in ANOTHER alphabet (prefix-compatible or diverging in the middle): the library may
+            # refuse ('?' = a raise is accepted); if it answers, the answer is the one for the operand's LETTERS
+            for other_src, tr in OTHER_ALPHABETS[enc]:
+                q = p.upper().translate(tr)
+                if any(c not in OTHER_LETTERS[other_src] for c in q):
+                    continue
+                add('eq-array-other-alphabet?', 't == bnp.as_encoded_array(%r, %s)' % (q, other_src), 'B1',
+                    [a.upper() == b for a, b in zip(s, q)])
+                ok = all(c in S.ALPHABET[enc] for c in q) if hasattr(S, 'ALPHABET') else all(c in 'ACGT' + ('N' if enc == 'acgtn' else '') for c in q)
+                add('set-from-other-alphabet?', 'c = t.copy(); c[:] = bnp.as_encoded_array(%r, %s); c' % (q, other_src), 'S',
+                    q if ok else '<must refuse: letter not in the alphabet>')
         add('mask-elem', 't[t == %r]' % present, 'S', ''.join(x for x in s if x == present))
         add('copy', 't.copy()', 'S', s)
         if m:
@@ -670,6 +687,9 @@ def judge_battery(run, ns, sigs, only_obs=None):
             _guard(e)
             if _is_unsupported(e):
                 outcomes.append(name + ':unsupported')
+                continue
+            if name.endswith('?'):
+                outcomes.append(name + ':refused')
                 continue
             f = _features(name, 'observation', st.t, sigs[0], e)
             fails.append(('raises', f, _norm(rk_exp, exp), '%s: %s' % (type(e).__name__, str(e)[:200]), e, [name, src]))
